@@ -572,6 +572,12 @@ func (ctx *SigningContext) prepare(req *http.Request) error {
 	if !ctx.isPresign {
 		req.Header.Set(ctx.literal.Date, formatTime(ctx.Time))
 	}
+	// The default port of the scheme is not part of the signed host, and the
+	// verifier, which doesn't know the scheme, takes the Host it receives as
+	// it is: send the host that is signed.
+	if host := getHost(req); host != "" {
+		req.Host = host
+	}
 	ctx.buildCanonicalHeaders(req)
 	return nil
 }
